@@ -129,7 +129,7 @@ def run(ctx, rep):
             detail = "refusal edge reaches `%s` (line %s)" % (n.text(), n.lineno)
             break
         rep.check(okr, "R1", key(f, None, "refusal edge returns False and nothing else"), f, vnode.ast, detail)
-    rep.floor("R1", "state-changing statements after validation in the request methods", n_r1, 12)
+    rep.floor("R1", "state-changing statements after validation in the request methods", n_r1, 6)
 
     # ------------------------------------------------------------------ R2
     # a refusal may only mark a NEW order: every transition that a call of BaseOrder.violation can
@@ -383,6 +383,13 @@ def _r4(ctx, rep, eff):
         if utext(lp.iter) == orders_p:
             grp = lp
     if grp is None:
+        from sa.kinds import unsorted_groupby
+        ug = unsorted_groupby(f.node)
+        if ug:
+            rep.violation("R4c", key(f, None, "grouped by the version element, order kept"), f, ug[0],
+                          "itertools.groupby over the pending list as queued: it merges only consecutive equal versions, so a "
+                          "version that appears in two runs overwrites / splits its group and accepted requests are dropped")
+            return
         raise AnalysisError("_create_order_package: grouping loop over the pending list not found")
     body = [utext(s) for s in grp.body]
     gdict = None
